@@ -353,6 +353,20 @@ class NumpyModel:
                 return f(node, *args, **kwargs)
             if last in alg_exc_names():
                 return ExcVal(last, args=tuple(args), node=node)
+        if root == "collections" and last == "namedtuple":
+            tname, fields = args[0], list(I.iterate(args[1], node))
+            cls = Record(None, {"_fields": tuple(fields), "__name__": tname}, label=f"namedtuple {tname}")
+
+            def make(I_, seq):
+                vals = list(I_.iterate(seq))
+                if len(vals) != len(fields):
+                    raise _raise("TypeError", node, f"Expected {len(fields)} arguments, got {len(vals)}")
+                r = Record(None, dict(zip(fields, vals)), label=tname)
+                r.attrs["_fields"] = tuple(fields)
+                r.attrs["_class"] = cls
+                return r
+            cls.native_methods["_make"] = Native("_make", make)
+            return cls
         if root == "functools" and last == "partial":
             return Partial(args[0], tuple(args[1:]), dict(kwargs))
         if root == "functools" and last == "wraps":
@@ -406,6 +420,18 @@ class NumpyModel:
         if strict and len({len(l) for l in ls}) > 1:
             raise _raise("ValueError", node, "zip() arguments have different lengths")
         return list(zip(*ls))
+
+    def b_next(self, node, it, *default):
+        if isinstance(it, list):
+            raise _raise("TypeError", node, "'list' object is not an iterator")
+        try:
+            return next(it)
+        except StopIteration:
+            if default:
+                return default[0]
+            raise _raise("StopIteration", node, "")
+        except TypeError:
+            raise Unsupported("next() of a non-iterator abstract value", node)
 
     def b_map(self, node, f, *xs):
         ls = [self.I.iterate(x, node) for x in xs]
